@@ -109,9 +109,12 @@ def cases(rng, tier):
         # a scalar-valued table without value_dtype stores values in the KEY dtype: keep them representable
         lo = 0 if np.dtype(dt).kind == "u" else -9
         vals = rng.choice([0, 1, 2, 3, 4, 5, 2.5, 0.75]) if scalar else [rng.randint(lo, 99) for _ in keys]
+        ops = _history(rng, keys, absent, rng.randint(1, 8), lo, (int(np.iinfo(dt).min), int(np.iinfo(dt).max)))
+        if scalar and np.dtype(dt).itemsize == 1:
+            # a table holding one shared value keeps its values in the KEY dtype: with 8-bit keys repeated += would leave it
+            ops = [o for o in ops if o["t"] not in ("iadd_num", "iadd_table")] or [{"t": "items"}]
         out.append({"keys": keys, "kdtype": dt, "qdtype": qdt, "mod": mod, "vals": vals,
-                    "vdtype": rng.choice(["int64", "int64", "float64", "int32"]),
-                    "ops": _history(rng, keys, absent, rng.randint(1, 8), lo, (int(np.iinfo(dt).min), int(np.iinfo(dt).max)))})
+                    "vdtype": rng.choice(["int64", "int64", "float64", "int32"]), "ops": ops})
     return out
 
 
